@@ -52,6 +52,22 @@ const (
 
 var maxTime = time.Date(9999, 12, 31, 23, 59, 59, 999, time.UTC)
 var minTime = time.Date(2000, 1, 1, 0, 0, 0, 0, time.UTC)
+
+// deadlineAfter is now + n units (seconds or milliseconds). A lifetime too long for a
+// time.Duration (more than about 292 years) does not wrap around into the past: whole seconds
+// are added on the calendar, and what lies beyond the end of time ends there.
+func deadlineAfter(now time.Time, n int64, unit time.Duration) time.Time {
+	if n <= math.MaxInt64/int64(unit) {
+		return now.Add(time.Duration(n) * unit)
+	}
+	perSecond := int64(time.Second / unit)
+	seconds, rest := n/perSecond, n%perSecond
+	if seconds > maxTime.Unix()-now.Unix() {
+		return maxTime
+	}
+	return time.Unix(now.Unix()+seconds, int64(now.Nanosecond())).Add(time.Duration(rest) * unit)
+}
+
 var wrongTypeError = respErrorString("WRONGTYPE Operation against a key holding the wrong kind of value")
 
 type (
@@ -937,7 +953,7 @@ func (dsc *dataStoreCommand) restore(keyName, serializedData string, ttl int64, 
 		if absttl {
 			expiration = time.UnixMilli(ttl)
 		} else {
-			expiration = time.Now().Add(time.Millisecond * time.Duration(ttl))
+			expiration = deadlineAfter(time.Now(), ttl, time.Millisecond)
 		}
 	} else {
 		expiration = maxTime
